@@ -297,6 +297,13 @@ pub fn check_expr(e: &E, src: &str, binds: &[(String, V)], sub: &str, acc: &mut 
             full.push((r.clone(), V::Int(1)));
         }
     }
+    // a type name that occurs in the source is not a variable read (a type name resolves first,
+    // C12): a binding of that name is unreported and must be irrelevant - see (4)
+    for t in &toks {
+        if is_type_name(t) && !reported.contains(t) && !full.iter().any(|(k, _)| k == t) {
+            full.push((t.clone(), V::s("a variable named like a type")));
+        }
+    }
     let r_full = exec_with(&prog, &full);
     acc.eval_only(sub, 1);
     if let Ok(Err(CelError::Binding { symbol })) = &r_full {
@@ -461,6 +468,9 @@ fn position_grid() -> Vec<(&'static str, E)> {
         ("match-pattern", E::Match(Box::new(ilit(1)), vec![(Pat::Cmp(Some(Op::Lt), v()), ilit(1))])),
         ("match-pattern-eq", E::Match(Box::new(ilit(1)), vec![(Pat::Cmp(None, bin(Op::Add, v(), ilit(0))), ilit(1))])),
         ("match-arm", E::Match(Box::new(ilit(1)), vec![(Pat::Any, v())])),
+        ("match-type-pattern", E::Match(Box::new(v()), vec![(Pat::Type("int".into()), slit("an int")), (Pat::Type("string".into()), slit("a string")), (Pat::Any, slit("other"))])),
+        ("match-type-pattern-in-macro", method(E::List(vec![v(), ilit(2)]), "map", vec![var("x"), E::Match(Box::new(var("x")), vec![(Pat::Type("int".into()), ilit(1)), (Pat::Type("bool".into()), ilit(2)), (Pat::Any, ilit(0))])])),
+        ("type-value", bin(Op::Eq, call("type", vec![v()]), var("int"))),
         ("match-arm-untaken", E::Match(Box::new(ilit(1)), vec![(Pat::Cmp(None, ilit(2)), v()), (Pat::Any, ilit(0))])),
         ("ternary-cond", E::Tern(Box::new(v()), Box::new(ilit(1)), Box::new(ilit(2)))),
         ("ternary-untaken-else", E::Tern(Box::new(t()), Box::new(ilit(1)), Box::new(v()))),
